@@ -1905,7 +1905,9 @@ ecdsa_recover_pub_key_from_priv_key_be(ec_curve_p curve,
 	if (bn_cmp(&d, &curve->n) >= 0) /* Key check. */
 		return (EINVAL);
 	/* Q = dG */
-	ec_point_mult_bp(&d, curve, &Q);
+	BN_RET_ON_ERR(ec_point_mult_bp(&d, curve, &Q));
+	if (0 != ec_point_is_at_infinity(&Q)) /* d = 0 is not a private key. */
+		return (-1);
 	BN_RET_ON_ERR(ec_point_check_as_pub_key(&Q, curve));
 	/* Export result. */
 	BN_RET_ON_ERR(ecdsa_pub_key_export_be(curve, pub_key_compress,
@@ -1938,7 +1940,9 @@ ecdsa_recover_pub_key_from_priv_key_le(ec_curve_p curve,
 	if (bn_cmp(&d, &curve->n) >= 0) /* Key check. */
 		return (EINVAL);
 	/* Q = dG */
-	ec_point_mult_bp(&d, curve, &Q);
+	BN_RET_ON_ERR(ec_point_mult_bp(&d, curve, &Q));
+	if (0 != ec_point_is_at_infinity(&Q)) /* d = 0 is not a private key. */
+		return (-1);
 	BN_RET_ON_ERR(ec_point_check_as_pub_key(&Q, curve));
 	/* Export result. */
 	BN_RET_ON_ERR(ecdsa_pub_key_export_le(curve, pub_key_compress,
